@@ -30,6 +30,10 @@ type c19Case struct {
 	Label     string `json:"label,omitempty"`
 	// sched
 	Background int      `json:"background,omitempty"`
+	// Stalled: one more client has pipelined requests and never reads the replies - the
+	// server's reply write to it is parked for good. The other connections must still come
+	// and go, and be released, as if it were not there.
+	Stalled bool `json:"stalled_reader,omitempty"`
 	Endings    []string `json:"endings,omitempty"`
 	StopAtEnd  bool     `json:"stop_at_end,omitempty"`
 	StopRace   string   `json:"stop_race,omitempty"` // Stop runs concurrently with: connecting | in-flight | tls-handshaking
@@ -138,6 +142,7 @@ type c19World struct {
 	ended   []string // server-side names of the connections that ended
 	stopped bool
 	inStop  bool // the harness thread is inside Server.Stop
+	stalled int  // 1: a client that never reads its replies is connected
 }
 
 func (w *c19World) fail(clause, detail string) { w.viol = append(w.viol, clause+"\x00"+detail) }
@@ -158,8 +163,8 @@ func (w *c19World) checkReleased(mode string, raw *vrt.Conn, step int) {
 			w.fail("goroutine-not-ended", fmt.Sprintf("ending #%d (%s): a server goroutine (%s) is still parked at %s", step, mode, sched.ThreadSummaryName(t.Name), t.Parked))
 		}
 	}
-	if n := len(w.srv.Conns()); n != len(w.bg) {
-		w.fail("registry-entry-left", fmt.Sprintf("ending #%d (%s): the registry holds %d connections, %d are alive", step, mode, n, len(w.bg)))
+	if n := len(w.srv.Conns()); n != len(w.bg)+w.stalled {
+		w.fail("registry-entry-left", fmt.Sprintf("ending #%d (%s): the registry holds %d connections, %d are alive", step, mode, n, len(w.bg)+w.stalled))
 	}
 }
 
@@ -281,6 +286,18 @@ func (w *c19World) body() {
 		}
 		cl.Do("PING")
 		w.bg = append(w.bg, cl)
+	}
+	if w.cs.Stalled {
+		cl, o := sched.Dial(":6379")
+		if o.Status != "ok" {
+			w.err = "stalled client: dial refused"
+			return
+		}
+		cl.Raw().Capacity = 8
+		for i := 0; i < 6; i++ {
+			cl.Send(resp.Cmd("ECHO", "0123456789abcdef").Bytes())
+		}
+		w.stalled = 1
 	}
 	vrt.WaitQuiet()
 	if w.cs.StopRace == "" {
@@ -511,6 +528,11 @@ func c19Explorer(cs c19Case, bound int) *sched.Explorer {
 				return sched.Verdict{Obs: "HARNESS-PANIC setup: " + w.err}
 			}
 			obs := fmt.Sprintf("ended=%v %s", w.ended, sched.ThreadSummary(r))
+			for _, t := range r.Threads {
+				if t.ID == 0 && !t.Finished && len(w.viol) == 0 && !w.inStop {
+					w.fail("other-connection-starved", fmt.Sprintf("a client waits for a reply that never comes (the harness thread is parked at %s): %s", t.Parked, obs))
+				}
+			}
 			if len(w.viol) > 0 {
 				p := strings.SplitN(w.viol[0], "\x00", 2)
 				return sched.Verdict{Clause: p[0], Detail: p[1], Obs: obs}
@@ -544,6 +566,9 @@ func c19Run(c *fw.Ctx) {
 		for bg := 0; bg <= 1; bg++ {
 			races = append(races, c19Case{Kind: "sched", Background: bg, StopRace: race, Endings: []string{"stop:" + race}})
 		}
+	}
+	for _, m := range []string{"eof-boundary", "eof-mid-request", "reset", "quit", "malformed", "tls-valid-then-eof"} {
+		len12 = append(len12, c19Case{Kind: "sched", Background: 1, Stalled: true, Endings: []string{m}, StopAtEnd: true})
 	}
 	for bg := 0; bg <= 1; bg++ {
 		len12 = append(len12, c19Case{Kind: "sched", Background: bg, Endings: []string{"nested-request-then-eof"}, StopAtEnd: true},
@@ -611,7 +636,7 @@ func c19Explore(c *fw.Ctx, cs c19Case, bound int) {
 	x := c19Explorer(cs, bound)
 	x.Expired = c.Expired
 	first := true
-	name := fmt.Sprintf("%v|bg=%d", cs.Endings, cs.Background)
+	name := fmt.Sprintf("%v|bg=%d|stalled=%v", cs.Endings, cs.Background, cs.Stalled)
 	x.OnExec = func(choices []int, r *vrt.Result, v sched.Verdict) {
 		c.Eval()
 		if strings.HasPrefix(v.Obs, "HARNESS-PANIC") {
